@@ -4,7 +4,7 @@ from __future__ import annotations
 
 import ast
 
-from ..core import AnalysisError, Check, Scope, dotted, norm, strip_docstring, walk_no_nested
+from ..core import expand_locals, single_defs, AnalysisError, Check, Scope, dotted, norm, strip_docstring, walk_no_nested
 from ..variants import Variant
 
 SCAN = "scan.py"
@@ -129,7 +129,22 @@ class C09(Check):
             self.violated("P2", PAR, "parallelise", "sequential-order", bad[0] if bad else fn, "sequential results are not produced in input order")
         pm = [n for n in ast.walk(fn) if isinstance(n, ast.Call) and dotted(n.func).endswith(".map") and len(n.args) >= 2 and norm(n.func) != "map"]
         cons = self.consumer(par, fn)
-        if cons is None:
+        # what the pool maps over must be the inputs themselves; a strided (round-robin) split of them reorders the results
+        strided = None
+        if pm and norm(pm[0].args[1]) != "inputs":
+            defs9 = single_defs(fn, anywhere=True)
+            src9 = expand_locals(pm[0].args[1], defs9)
+            helpers9 = [par.functions[c_.func.id] for c_ in ast.walk(src9) if isinstance(c_, ast.Call) and isinstance(c_.func, ast.Name) and c_.func.id in par.functions]
+            for root9 in [src9] + helpers9:
+                for n9 in ast.walk(root9):
+                    if isinstance(n9, ast.Subscript) and isinstance(n9.slice, ast.Slice) and n9.slice.step is not None:
+                        strided = n9
+        if strided is not None:
+            self.violated("P2", PAR, "parallelise", "parallel-order", pm[0],
+                          f"the pool maps over `{norm(pm[0].args[1])}`, built with the strided slice `{norm(strided)}` (round-robin batches): concatenating the batch results "
+                          "does not restore input order as soon as there are more inputs than batches",
+                          witness="7 scan rows on 2 workers: results come back as rows 0,2,4,6,1,3,5 and are attached to the wrong rows")
+        elif cons is None:
             self.undecided_ob("P2", PAR, "parallelise", "parallel-order", fn, "parallel consumer loop not recognised")
         else:
             owner, loop, tr, nxt, apps, lst = cons
